@@ -153,6 +153,36 @@ PROPS = {
         cases=[('defect', 400, 6000, [])],
         oracle='c19',
     ),
+    'C14': dict(
+        title='descriptor lookups find every key and reject every non-key',
+        modules=['Pbc.Props.C14'],
+        theorems=['Pbc.Props.C14.bsearch_sound', 'Pbc.Props.C14.bsearch_complete', 'Pbc.Props.C14.bsearch_none',
+                  'Pbc.Props.C14.ranges_sorted', 'Pbc.Props.C14.rangeLookup_spec', 'Pbc.Props.C14.rangeLookup_none',
+                  'Pbc.Props.C14.cmpBytes_trans', 'Pbc.Props.C14.names_sorted_cmp', 'Pbc.Props.C14.nameLookup_spec'],
+        refine=[],
+        cases=[('lookup', 1500, 20000, []), ('leaf', 30, 200, [])],
+        oracle='c14',
+        leaf_filter=['int_range_lookup'],
+    ),
+    'C16': dict(
+        title='behaviour is independent of build configuration and byte-order path',
+        modules=['Pbc.Props.C16', 'Pbc.Refine.BigEndian'],
+        theorems=['Pbc.Refine.BE.fixed32_pack_same', 'Pbc.Refine.BE.fixed64_pack_same', 'Pbc.Refine.BE.parse_fixed_uint32_same',
+                  'Pbc.Refine.BE.parse_fixed_uint64_same', 'Pbc.Props.C16.asserts_listed', 'Pbc.Props.C16.names_read_only_by_name_lookups',
+                  'Pbc.Props.C16.guess_off_by_one', 'Pbc.Props.C16.streamed_payload_length'],
+        refine=['get_type_min_size_spec', 'sizeof_elt_in_repeated_array_spec', 'is_packable_type_spec'],
+        cases=[('msg', 150, 2000, ['--big']), ('wire', 250, 4000, [])],
+        oracle='c16', variants=['be', 'ndebug', 'O0', 'O2', 'clang'],
+    ),
+    'C17': dict(
+        title='no hidden shared state: concurrent use on separate messages is safe',
+        modules=['Pbc.Props.C17'],
+        theorems=['Pbc.Props.C17.only_mutable_global_is_default_allocator', 'Pbc.Props.C17.no_store_to_static_state',
+                  'Pbc.Props.C17.no_local_statics', 'Pbc.Props.C17.interleaving_invisible'],
+        refine=[],
+        cases=[('mt', 300, 3000, [])],
+        oracle='c17', threads=8,
+    ),
     'C18': dict(
         title='the append buffer holds exactly what was appended, for any history',
         modules=['Pbc.Props.C18', 'Pbc.Props.C02'],
@@ -237,6 +267,34 @@ def ensure_build():
             state['harness_err'] = r.stderr[-3000:]
             if r.returncode != 0 and os.path.exists(os.path.join(BUILD, 'harness_asan')):
                 os.remove(os.path.join(BUILD, 'harness_asan'))
+            log('building harness variants (C16) and the multi-threaded harness (C17)')
+            base = ['-DPBC_SRC="%s"' % os.path.join(REPO, 'protobuf-c', 'protobuf-c.c'), '-I' + REPO, '-I' + os.path.join(REPO, 'protobuf-c'),
+                    '-I' + BUILD, os.path.join(VERIF, 'harness', 'pbc_harness.c')]
+            san = ['-g', '-fsanitize=address,undefined', '-fno-sanitize-recover=all']
+            variants = {
+                'be': ['gcc', '-O1', '-DWORDS_BIGENDIAN'] + san,
+                'ndebug': ['gcc', '-O1', '-DNDEBUG'] + san,
+                'O0': ['gcc', '-O0'],
+                'O2': ['gcc', '-O2'],
+                'clang': ['clang-14', '-O1'],
+                'mt': ['gcc', '-O1', '-g', '-DPBCV_MT', '-pthread'],
+                'tsan': ['clang-14', '-O1', '-g', '-fsanitize=thread', '-DPBCV_MT', '-pthread'],
+            }
+            import concurrent.futures
+            def build_variant(item):
+                name, cmd = item
+                outp = os.path.join(BUILD, 'harness_' + name)
+                r = run(cmd + ['-o', outp] + base)
+                if r.returncode != 0 and os.path.exists(outp):
+                    os.remove(outp)
+                return name, r.returncode, r.stderr[-800:]
+            state['variants'] = {}
+            with concurrent.futures.ThreadPoolExecutor(7) as ex:
+                for name, rc, err in ex.map(build_variant, variants.items()):
+                    state['variants'][name] = {'rc': rc, 'err': err if rc else ''}
+            log('extracting source facts')
+            r = run([sys.executable, os.path.join(HERE, 'extract_facts.py')])
+            state['facts_out'] = (r.stdout + r.stderr)[-500:]
             log('building reference harness (libprotobuf)')
             try:
                 flags = subprocess.check_output(['pkg-config', '--cflags', '--libs', 'protobuf'], text=True).split()
@@ -448,38 +506,40 @@ def main():
     obligations = list(P['theorems']) + [R + t for t in P['refine']]
     undischarged = {}
     mods = state.get('mods', {})
-    for m in P['modules'] + (['Pbc.Refine.Leaves'] if P['refine'] else []):
+    need_mods = P['modules'] + (['Pbc.Refine.Leaves'] if P['refine'] else [])
+    failed_detail = {}
+    for m in need_mods:
         if mods.get(m, {}).get('rc', 1) != 0:
             bad, tail = failed_theorems_in(m)
-            for t in obligations:
-                short = t.split('.')[-1]
-                full_mod = '.'.join(t.split('.')[:-1])
-                if (full_mod == m or (m == 'Pbc.Refine.Leaves' and t.startswith(R))) and (short in bad or '?' in bad):
-                    undischarged[t] = bad.get(short, bad.get('?'))[:2]
-            if not bad:
-                # the module did not build for another reason (import failure)
-                for t in obligations:
-                    full_mod = '.'.join(t.split('.')[:-1])
-                    if full_mod == m or (m == 'Pbc.Refine.Leaves' and t.startswith(R)):
-                        undischarged[t] = ['module %s did not build: %s' % (m, tail[-300:])]
-    built_mods = [m for m in P['modules'] + (['Pbc.Refine.Leaves'] if P['refine'] else []) if mods.get(m, {}).get('rc', 1) == 0]
+            failed_detail[m] = (bad, tail)
+    built_mods = [m for m in need_mods if mods.get(m, {}).get('rc', 1) == 0]
     axioms_seen = {}
     native_axioms = []
-    if built_mods:
-        ok_thms = [t for t in obligations if t not in undischarged and any(t.startswith(m + '.') or (m == 'Pbc.Refine.Leaves' and t.startswith(R)) for m in built_mods)]
-        res, tail = audit(ok_thms, built_mods)
-        for t, ax in res.items():
-            if ax is None:
-                undischarged[t] = ['theorem not found by #print axioms']
+    res, tail = audit(obligations, built_mods) if built_mods else ({t: None for t in obligations}, '')
+    for t, ax in res.items():
+        if ax is None:
+            # not provable/visible now: say why if a module that should contain it failed
+            why = ['theorem not found by #print axioms (its module did not build or it no longer exists)']
+            short = t.split('.')[-1]
+            for m, (bad, tl) in failed_detail.items():
+                if short in bad:
+                    why = ['%s: %s' % (m, x) for x in bad[short][:2]]
+                elif not bad:
+                    why.append('module %s did not build: %s' % (m, tl[-300:]))
+            undischarged[t] = why
+            continue
+        axioms_seen[t] = ax
+        for a in ax:
+            if a in ALLOWED_AXIOMS:
                 continue
-            axioms_seen[t] = ax
-            for a in ax:
-                if a in ALLOWED_AXIOMS:
-                    continue
-                if t.startswith(R) and re.match(r'.*\._native\.bv_decide\.ax_', a):
-                    native_axioms.append(a)
-                    continue
-                undischarged[t] = ['disallowed axiom %s' % a]
+            if re.match(r'.*\._native\.bv_decide\.ax_', a) and (t.startswith('Pbc.Refine.') or t.startswith('Pbc.Lemmas.')):
+                native_axioms.append(a)
+                continue
+            if re.match(r'.*\._native\.bv_decide\.ax_', a):
+                # a property theorem that rests on a bv_decide lemma inherits its axiom: allowed, but recorded
+                native_axioms.append(a)
+                continue
+            undischarged[t] = ['disallowed axiom %s' % a]
     forbidden = grep_forbidden()
     if forbidden:
         for t in obligations:
@@ -541,6 +601,67 @@ def main():
                                 'schema': schema_block_for(res['lines'], idx), 'ops': [res['lines'][idx]],
                                 'impl_output': (res['impl'][idx] if idx < len(res['impl']) else None),
                                 'model_output': (res['model'][idx] if idx < len(res['model']) else None)})
+    # ---- build-variant comparison (C16) ------------------------------------------------------------
+    if P.get('variants') and harness_ok:
+        env = dict(os.environ, ASAN_OPTIONS='detect_leaks=1', UBSAN_OPTIONS='print_stacktrace=0')
+        cov['variants'] = {}
+        for vname in P['variants']:
+            vb = os.path.join(BUILD, 'harness_' + vname)
+            if not os.path.exists(vb):
+                corr_broken.append({'what': 'build variant %s did not compile' % vname, 'detail': state.get('variants', {}).get(vname, {}).get('err', '')})
+                continue
+            nd = 0
+            for label, res in runs:
+                rv = run([vb, res['case']], env=env)
+                outv = rv.stdout.split('\n')
+                for idx, l in enumerate(res['lines']):
+                    if not l or l.startswith(('#', 'schema', 'msg ', 'f ')):
+                        continue
+                    a = res['impl'][idx] if idx < len(res['impl']) else '<missing>'
+                    b = outv[idx] if idx < len(outv) else '<missing>'
+                    # the granularity of append() calls is not observable behaviour in C16's sense (the
+                    # portable path streams fixed-width elements one by one): compare bytes, not chunking
+                    a = re.sub(r' chunks=\S*', '', a)
+                    b = re.sub(r' chunks=\S*', '', b)
+                    if a != b:
+                        nd += 1
+                        if nd <= 2:
+                            violations.append(('build variant %s behaves differently from the default build' % vname,
+                                               {'property': pid, 'kind': 'variant', 'variant': vname, 'seed': seed, 'label': label,
+                                                'schema': schema_block_for(res['lines'], idx), 'ops': [l], 'impl_output': a, 'variant_output': b,
+                                                'what': 'build variant %s behaves differently from the default build' % vname}))
+            cov['variants'][vname] = {'differences': nd}
+    # ---- threads (C17) ----------------------------------------------------------------------------------
+    if P.get('threads') and harness_ok:
+        cov['threads'] = {}
+        for label, res in runs:
+            if not label.startswith('mt'):
+                continue
+            mt = os.path.join(BUILD, 'harness_mt')
+            ts = os.path.join(BUILD, 'harness_tsan')
+            seq = run([mt, res['case'], '1'])
+            par = run([mt, res['case'], str(P['threads'])])
+            dseq = re.findall(r'digest=(\w+)', seq.stdout)
+            dpar = re.findall(r'digest=(\w+)', par.stdout)
+            okd = len(dseq) == 1 and len(dpar) == P['threads'] and all(d == dseq[0] for d in dpar)
+            cov['threads'][label] = {'threads': P['threads'], 'sequential_digest': dseq[:1], 'all_equal': okd,
+                                     'inputs': re.findall(r'inputs=(\d+)', par.stdout)[:1]}
+            cov['evaluations'] += len(dpar)
+            for d in set(dpar):
+                distinct.add(('digest', label, d))
+            distinct.add(('mtcase', label))
+            if not okd:
+                violations.append(('a thread obtained a different result than the same workload run alone',
+                                   {'property': pid, 'kind': 'threads', 'seed': seed, 'label': label, 'ops': [], 'schema': [],
+                                    'sequential': dseq, 'parallel': dpar, 'what': 'per-thread digests differ from the sequential run', 'case_file': res['case']}))
+            if os.path.exists(ts):
+                rt = run([ts, res['case'], str(P['threads'])], env=dict(os.environ, TSAN_OPTIONS='halt_on_error=0 exitcode=66'))
+                races = rt.stderr.count('WARNING: ThreadSanitizer')
+                cov['threads'][label]['tsan_reports'] = races
+                if races or rt.returncode == 66:
+                    violations.append(('ThreadSanitizer reports a data race in the library under concurrent use on separate messages',
+                                       {'property': pid, 'kind': 'threads', 'seed': seed, 'label': label, 'ops': [], 'schema': [],
+                                        'what': 'data race', 'tsan': rt.stderr[-1500:], 'case_file': res['case']}))
     cov['distinct_nontrivial'] = len(distinct)
 
     # ---- 5. verdict ---------------------------------------------------------------------------
@@ -591,6 +712,8 @@ def main():
             'samples': cov['samples'] or ['(no correspondence run)'],
             'traces_validated_against_impl': cov['evaluations'],
             'per_kind': cov['per_kind'],
+            'variants': cov.get('variants', {}),
+            'threads': cov.get('threads', {}),
             'correspondence_disagreements': len(corr_broken),
         },
         'assumptions': ['little-endian LP64 host, sizeof(int)=4', 'encoded sizes < 2^31',
